@@ -66,3 +66,53 @@ def check(ctx):
     ctx.extra["stdlib_modules_in_must_load_closure"] = len(base.std_loaded)
     ctx.paths += len(sims)
     ctx.floor("entries", len(sims), 10)
+    docstring_free_imports(ctx, lib)
+
+
+def docstring_free_imports(ctx, lib):
+    """every interpreter mode is a fresh interpreter too: under -OO (PYTHONOPTIMIZE=2) all __doc__ are None.  Code that runs at
+    import time - module level statements and the same-module functions they call - must not treat a __doc__ as a string"""
+    import ast
+    ctx.rule("IMP-doc", "no import-time code dereferences a __doc__ (None under -OO) without testing it")
+    n = 0
+    for m in lib:
+        tree = m.tree
+        funcs = {f.name: f for f in tree.body if isinstance(f, ast.FunctionDef)}
+        called = set()
+        for st in tree.body:
+            if isinstance(st, (ast.FunctionDef, ast.ClassDef)):
+                # decorators and class bodies run at import time
+                roots = list(st.decorator_list) + ([x for x in st.body if not isinstance(x, ast.FunctionDef)] if isinstance(st, ast.ClassDef) else [])
+            else:
+                roots = [st]
+            for r in roots:
+                for x in ast.walk(r):
+                    if isinstance(x, ast.Call) and isinstance(x.func, ast.Name) and x.func.id in funcs:
+                        called.add(x.func.id)
+        scopes = [("<module>", [st for st in tree.body if not isinstance(st, (ast.FunctionDef, ast.ClassDef))])] + \
+            [(fn, funcs[fn].body) for fn in sorted(called)]
+        for where, body in scopes:
+            for st in body:
+                for x in ast.walk(st):
+                    uses = None
+                    if isinstance(x, ast.Attribute) and isinstance(x.value, ast.Attribute) and x.value.attr == "__doc__":
+                        uses = x                    # f.__doc__.rstrip
+                    elif isinstance(x, ast.BinOp) and any(isinstance(s_, ast.Attribute) and s_.attr == "__doc__" for s_ in (x.left, x.right)):
+                        uses = x                    # f.__doc__ + "..."
+                    elif isinstance(x, ast.Subscript) and isinstance(x.value, ast.Attribute) and x.value.attr == "__doc__":
+                        uses = x
+                    if uses is None:
+                        continue
+                    n += 1
+                    guarded = False
+                    p = getattr(uses, "_parent", None)
+                    while p is not None and not isinstance(p, (ast.FunctionDef, ast.Module)):
+                        if isinstance(p, (ast.If, ast.IfExp)) and "__doc__" in ast.unparse(p.test):
+                            guarded = True
+                        if isinstance(p, ast.BoolOp) and any("__doc__" in ast.unparse(v) for v in p.values[:-1]):
+                            guarded = True
+                        p = getattr(p, "_parent", None)
+                    ctx.check(guarded, "IMP-doc", uses, "%s %s: %s" % (m.relpath, where, ast.unparse(uses)[:60]),
+                              "under python -OO every __doc__ is None: this import-time expression raises AttributeError/TypeError and the "
+                              "module (and with the eager package imports, `import ioflo`) cannot be imported in that interpreter mode")
+    ctx.ok("IMP-doc", "library modules", "%d import-time uses of a __doc__ value" % n)
